@@ -148,6 +148,30 @@ MUTANTS = [
     M("cv16-store-raw", "model/wildcard_binspec.py", "WildcardBinspec.__init__", "self.specs.append((s[0] & s[1], s[1]))", "self.specs.append((s[0], s[1]))", ["C19"], "CV16"),
     M("bd5-later-upper", "model/variable_bound_in_propagator.py", "VariableBoundInPropagator.propagate", "max(in_r_l[-1][1], in_r_l_t[i][1])", "in_r_l_t[i][1]", ["C14"], "BD5"),
     M("bd5-compact", "model/rangelist_model.py", "RangelistModel.compact", "max(self.range_l[i][1], self.range_l[i + 1][1])", "self.range_l[i + 1][1]", ["C10"], "BD5"),
+    M("sr1-save-after-write", "model/rand_info_builder.py", "RandInfoBuilder.visit_composite_field", "old_used_rand = self._used_rand\nself._used_rand = f.is_used_rand",
+      "self._used_rand = f.is_used_rand\nold_used_rand = self._used_rand", ["C02"], "SR1"),
+    M("sc1-implies-marker", "model/constraint_implies_model.py", "ConstraintImpliesModel.__init__", "self.cond = cond", "self.cond = cond\nself.priority = 0", ["C01", "C05"], "SC1"),
+    M("ft14-direct-model", "rand_obj.py", "build_field_model", "fo.set_model(pop_constraint_scope())", "fo.model = pop_constraint_scope()", ["C06", "C07"], "FT14"),
+    M("ft14-ref-cache", "constraints.py", "dynamic_constraint_t.__call__", "return expr(ExprDynRefModel(self.model))",
+      "self.ref = ExprDynRefModel(self.model)\nreturn expr(self.ref)", ["C06"], "FT14"),
+    M("ft15-loop-source", "rand_obj.py", "build_field_model", "dir(self)", "dir(type(self).__mro__[-2])", ["C07"], "FT15"),
+    M("ix1-other-list", "model/field_composite_model.py", "FieldCompositeModel.add_dynamic_constraint", "len(self.constraint_dynamic_model_l)", "len(self.constraint_model_l)", ["C06"], "IX1"),
+    M("cv17-position", "model/coverpoint_bin_collection_model.py", "CoverpointBinCollectionModel.finalize", "self.bin_idx_base + self.n_bins", "self.bin_idx_base + len(self.bin_l)", ["C10"], "CV17"),
+    M("cv17-no-base", "model/coverpoint_bin_collection_model.py", "CoverpointBinCollectionModel.finalize", "self.bin_idx_base + self.n_bins", "self.n_bins", ["C19"], "CV17"),
+    M("rn1-skip-walk", "model/field_composite_model.py", "FieldCompositeModel.set_used_rand", "if in_set is None:\n    in_set = set()",
+      "if not self.is_used_rand:\n    return\nif in_set is None:\n    in_set = set()", ["C03"], "RN1"),
+    M("cv18-mask", "model/expr_ref_model.py", "ExprRefModel.val", "return self.ref()", "return self.ref() & 1", ["C11"], "CV18"),
+    M("rs10-unguarded", "model/rand_set.py", "RandSet.add_field", "if f.is_used_rand:\n    self.field_rand_l.append(f)", "self.field_rand_l.append(f)", ["C15"], "RS10"),
+    M("rn8-from-used", "types.py", "list_t.append", "self.get_model().is_declared_rand", "self.get_model().is_used_rand", ["C17"], "RN8"),
+    M("ft17-unguarded", "rand_obj.py", "build_field_model", "fo._int_field_info.model is None", "True", ["C18"], "FT17"),
+    M("en1-name-key", "impl/enum_info.py", "EnumInfo.get", "EnumInfo._info_map[e]", "EnumInfo._info_map[e.__name__]", ["C18"], "EN1"),
+    M("nm5-cache-on-directive", "model/rand_info_builder.py", "RandInfoBuilder.visit_constraint_solve_order", "ExpandSolveOrderVisitor(self._order_m).expand(a, b)",
+      "c.seen = True\nExpandSolveOrderVisitor(self._order_m).expand(a, b)", ["C20"], "NM5"),
+    M("rs11-guarded", "visitors/expand_solve_order_visitor.py", "ExpandSolveOrderVisitor.expand", "a.accept(self)", "if a.is_used_rand:\n    a.accept(self)", ["C20"], "RS11"),
+    M("sh5-narrow-list", "model/randomizer.py", "Randomizer.create_diagnostics", "for rs in active_randsets:\n    for f in rs.all_fields():\n        f.dispose()",
+      "for f in diagnostic_field_l:\n    f.dispose()", ["C16"], "SH5"),
+    M("sh4-build-memo", "model/expr_in_model.py", "ExprInModel.build", "t = None", "if getattr(self, '_memo', None) is not None:\n    return self._memo.build(btor)\nt = None\nself._memo = self.lhs",
+      ["C03"], "SH4"),
 ]
 
 # behaviour-preserving rewrites: must stay silent for every property
